@@ -147,5 +147,5 @@ func (c *Ctx) announcedSizeIsSumOfParts(rule string) {
 			R.Check(ok2, rule, c.name(f)+fmt.Sprintf("|size = sum of the reader's parts|#%d", ord), P.Pos(ret.Pos()), "the returned size equals the total length of the parts", "the size returned with the reader differs from the total length of the reader's parts (size - parts = "+show(diff)+"): the stored RFC822.SIZE is not the length of the literal that is stored and fetched")
 		}
 	}
-	R.Min(rule, "returns of a MultiReader over byte slices with a size", n, 2)
+	R.Min(rule, "returns of a MultiReader over byte slices with a size", n, 1)
 }
